@@ -91,7 +91,7 @@ fn spawn_monitor(start: std::time::Instant) {
 fn grammar_specs(tier: Tier) -> Vec<Spec> {
     match tier {
         Tier::Quick => {
-            let mut v = vec![g(2, 2, 3, 3)];
+            let mut v = vec![g(2, 2, 3, 3), g(2, 0, 3, 3), g(2, 1, 3, 3), g(1, 3, 3, 2), Spec::Files { k: 1, cap: 250 }];
             v.extend(all_seed_nbh(1, 1, 100_000));
             v
         }
@@ -107,7 +107,7 @@ fn family_scope(family: &str, tier: Tier) -> String {
     match family {
         "strings" => format!("all strings of at most {} symbols over the 28-symbol alphabet, and every Unicode scalar value in 9 contexts", tier.pick(5, 7)),
         "tokens" => format!("all viable token-kind prefixes of the Kiki grammar to depth {} and all their one-token extensions, rendered to text", tier.pick(13, 16)),
-        "asts" => format!("all files of at most {} items over the 155-item alphabet of C10", tier.pick(3, 4)),
+        "asts" => format!("all files of at most {} items over the 184-item alphabet of C10", tier.pick(3, 4)),
         "grammars" => format!("all grammars of {}", grammar_specs(tier).iter().map(|s| s.name()).collect::<Vec<_>>().join(", ")),
         _ => String::new(),
     }
